@@ -946,15 +946,15 @@ def evaluate_component(case):
 
 
 FAMILIES = [
-    Family("pandas_programs", evaluate, strategy=strat_pandas, n_quick=180, n_thorough=4000, shards_quick=6,
+    Family("pandas_programs", evaluate, strategy=strat_pandas, n_quick=360, n_thorough=4000, shards_quick=6,
            shards_thorough=16,
            required_labels=["op=add_columns", "op=remove_columns", "op=select_columns", "op=rename_columns",
                             "op=update_column", "op=update_columns", "op=set_index", "op=reset_index",
                             "index=multi3", "converse-tracked", "state-revisit", "profile=plain"]),
-    Family("polars_programs", evaluate, strategy=strat_polars, n_quick=120, n_thorough=2000, shards_quick=2,
+    Family("polars_programs", evaluate, strategy=strat_polars, n_quick=240, n_thorough=2000, shards_quick=2,
            shards_thorough=8,
            required_labels=["op=add_columns", "op=rename_columns", "op=update_columns", "converse-tracked"]),
-    Family("component_update_checks", evaluate_component, strategy=comp_cases, n_quick=150, n_thorough=1500,
+    Family("component_update_checks", evaluate_component, strategy=comp_cases, n_quick=300, n_thorough=1500,
            shards_quick=1, shards_thorough=2,
            required_labels=["component=pandas.column", "component=pandas.index", "component=polars.column"]),
 ]
